@@ -225,9 +225,12 @@ impl Core {
             .remove(task_id)
             .expect("Trying to remove non-existent task");
         if let TaskRuntimeState::Waiting { unfinished_deps } = &task.state {
-            self.task_queues
-                .get_mut(task.resource_rq_id)
-                .remove(task_id, task.priority());
+            // Only ready tasks are in the ready queue
+            if *unfinished_deps == 0 {
+                self.task_queues
+                    .get_mut(task.resource_rq_id)
+                    .remove(task_id, task.priority());
+            }
             if *unfinished_deps > 0 {
                 for input_id in task.task_deps {
                     if let Some(input) = self.find_task_mut(input_id) {
